@@ -17,7 +17,7 @@ PARS = ['\n\n', '\n \n', '\n\n\n', ' \n\t\n ', '\\par', '\\par ', '\n\\par\n', '
         '\n\n\n\n', '\n  \n  \n', 'BIB']
 
 VANISH = ['com', 'label', 'index', 'unk', 'unkarg', 'skip', 'tikz', 'ltskip', 'vanish2', 'unkenv_b', 'unkenv_e',
-          'lang']
+          'lang', 'xspace']
 
 
 def render(rnd, atoms, lang_ml=False):
@@ -26,7 +26,17 @@ def render(rnd, atoms, lang_ml=False):
     prev = None
     counts = False
     haspar = False
+    xpending = False    # an \xspace waits for its next token
     for k in atoms:
+        if xpending and k not in ('ws', 'skip'):
+            # \xspace: a blank unless the next token is in its exception list (of the atoms only \footnotemark);
+            # a skipped region is removed before expansion, so it is transparent
+            xpending = False
+            if k == 'vanish2':
+                s += '\\footnotemark[1]'
+                prev = k
+                continue
+            counts = True
         if k == 'ws':
             if prev == 'ws':
                 continue
@@ -81,7 +91,13 @@ def render(rnd, atoms, lang_ml=False):
             s += '\\end{zzenv}'
         elif k == 'lang':
             s += '\\selectlanguage{english}'
+        elif k == 'xspace':
+            s += '\\xspace'
+            xpending = True
+            k = 'unk'
         prev = k
+    if xpending:
+        counts = True       # the second word follows
     return s, counts, haspar
 
 
@@ -131,7 +147,7 @@ class C05(core.Check):
     technique = 'runtime monitor: compositional separator model (glue / blank / paragraph rule) on adjacent unique words'
     rule = ('pair: two unique words separated by 0-6 (quick) / 0-10 (thorough) atoms out of white space layouts, '
             'comments, \\label, \\index, unknown macros with/without {}, skipped regions, removed environments, '
-            '\\LTskip, declared vanishing macros, unknown-environment delimiters, paragraph atoms (blank lines in '
+            '\\LTskip, declared vanishing macros, \\xspace (with its exception list), unknown-environment delimiters, paragraph atoms (blank lines in '
             'several shapes, \\par, paragraph-forming environments), embedded in %d contexts (top level, arguments of '
             'unknown / user / declared macros, footnote, item, heading, table cell, unknown environment, first / last '
             'line); straddle: the first word (or a control word) ends an argument and the second follows the closing '
